@@ -1018,8 +1018,12 @@ package serf
 //@ end
 
 //@ func (r *QueryResponse) Finished() (fin bool)
+//@   logcalls
 //@   requires receiver: r != nil
 //@   ensures closed_is_finished [C07]: r.closed ==> fin
+//@   # finished = closed, or the clock (read once, here) is past the deadline
+//@   ensures reads_clock_once [C07]: logN("now") == old(logN("now")) + ite(r.closed, 0, 1)
+//@   ensures past_deadline_is_finished [C07]: fin == (r.closed || logAt[time.Time]("now", old(logN("now"))).After(r.deadline))
 //@ end
 //@ func (r *QueryResponse) acked(from string) (ok bool)
 //@   requires receiver: r != nil
@@ -1061,6 +1065,10 @@ package serf
 //@   ensures response_carries_reply [C07]: mine && sentN(q.respCh) == old(sentN(q.respCh))+1 ==>
 //@       sentAt(q.respCh, old(sentN(q.respCh))).From == resp.From && sameSlice(sentAt(q.respCh, old(sentN(q.respCh))).Payload, resp.Payload)
 //@   ensures nothing_after_close [C07]: mine && old(q.closed) ==> sentN(q.respCh) == old(sentN(q.respCh)) && (q.ackCh != nil ==> sentN(q.ackCh) == old(sentN(q.ackCh)))
+//@   # nothing is delivered unless the query was asked whether it is finished (closed, or past its deadline by the clock
+//@   # reading taken then) and said no
+//@   ensures nothing_after_deadline [C07]: mine && (sentN(q.respCh) != old(sentN(q.respCh)) || (q.ackCh != nil && sentN(q.ackCh) != old(sentN(q.ackCh)))) ==>
+//@       callN() > old(callN()) && callIs(old(callN()), "QueryResponse.Finished") && !callRet(old(callN()))
 //@ end
 
 // ---------------------------------------------------------------- no network input crashes a node (C09)
